@@ -242,8 +242,10 @@ func snapshot(n *chainkit.Node) string {
 	for _, id := range chainkit.KnownTxs() {
 		u, ok := n.Unspent(id)
 		_, h, err := n.Store.GetTransaction(id)
-		if ok || err == nil {
-			fmt.Fprintf(&sb, "tx %s unspent=%v(%v) indexed=%v@%d\n", chainkit.Short(id), u, ok, err == nil, h)
+		// only transactions the node has something about: the line set must not depend on what
+		// else the factory registry of this process happens to hold
+		if (ok && len(u) > 0) || err == nil {
+			fmt.Fprintf(&sb, "tx %s unspent=%v indexed=%v@%d\n", chainkit.Short(id), u, err == nil, h)
 		}
 	}
 	for _, k := range []string{"foundation", "miner", "carol"} {
@@ -648,19 +650,6 @@ func main() {
 	if chainkit.Serve(chainkit.BFSHandler(chainkit.Multi(newSystem))) {
 		return
 	}
-	if len(os.Args) > 1 && os.Args[1] == "--bench" {
-		h := []string{"d:T1", "d:T2", "d:T3", "d:T4", "d:A3", "d:A4", "d:A5"}
-		t0 := time.Now()
-		for i := 0; i < 60; i++ {
-			chainkit.RunHistory(newSystem, "valid-heavier-fork", h, false)
-			if i == 9 {
-				t0 = time.Now()
-			}
-		}
-		fmt.Println("avg per execution after warm-up:", time.Since(t0)/50)
-		chainkit.Cleanup()
-		return
-	}
 	r := evid.Start("C12", "model_checking")
 	if r.Replay != "" {
 		var a struct {
@@ -682,7 +671,7 @@ func main() {
 		}
 		r.Finish(evid.Coverage{})
 	}
-	budget := chainkit.Budget(r.Pick(100, 1700))
+	budget := chainkit.Budget(r.Pick(85, 1700))
 	deadline := time.Now().Add(budget)
 	// reference snapshots (and the construction self-checks) once, in the parent
 	scratch := evid.Scratch("c12")
@@ -734,7 +723,7 @@ func main() {
 	if len(samples) == 0 {
 		samples = append(samples, []string{})
 	}
-	if exhaustive && (total["reorganisations_completed"] == 0 || total["orphans_stored"] == 0 || total["invalid_blocks_delivered"] == 0) {
+	if exhaustive && r.NumViolations() == 0 && (total["reorganisations_completed"] == 0 || total["orphans_stored"] == 0 || total["invalid_blocks_delivered"] == 0) {
 		evid.Fatalf("C12: vacuous run: %v", total)
 	}
 	var names []string
